@@ -621,3 +621,51 @@ RECIPES["C18"] = {
          "fp_restrict": FP_LOG, "timeout": 900},
     ],
 }
+
+# ---- texts for MANIFEST.json (level claimed / trusted base), per property ----
+_T = "bounded symbolic execution of the real C units with CBMC 6.11 (goto-cc, goto-instrument --restrict-function-pointer, SAT: minisat/cadical), unwinding assertions on; counterexamples replayed natively under ASan/UBSan"
+_STEP_TEXT = ("inductive step over the real IAuth modules: from EVERY state of two requests, their xquery records and two services that satisfies the "
+              "representation invariant inv(), ONE event (kind enumerated by the driver, payload symbolic) is executed by the real handler; the solver proves the "
+              "property's per-step obligations on the captured output lines and inv() again, for all values. Histories of any length follow by induction; width is bounded (2 requests, 2 services, short strings)")
+_STEP_NOTE = ("trusted: inv() written by hand (C_step.c) and its base case (event C); the libevent/clock model (env/iauth_env.c); the decision-layer recorder (env/rec.c) - "
+              "rendering is decided separately by C09; typed-allocation model of set_node_alloc; CBMC itself. Outside: >2 concurrent clients per step, real timers, chunking")
+META = {
+    "C01": (_STEP_TEXT + ". Obligations: at most one verdict and one soft-done per instance, nothing names a client after its verdict / withdrawal, no line names an id or tag that is not live.", _STEP_NOTE),
+    "C02": (_STEP_TEXT + ". Obligations: acceptance only if required data (or hurry-up) present, no awaited service (or timeout expired), no unmet +!; a refused client is never accepted.", _STEP_NOTE),
+    "C03": (_STEP_TEXT + ". Obligations: whenever the event completes the conditions the verdict is in the same step; the hold counters say exactly what is pending afterwards.", _STEP_NOTE),
+    "C04": (_STEP_TEXT + ". Obligations: a reply whose tag/service does not name an awaited service of a current instance produces no output and changes nothing (records compared bytewise). Plus `tag`: every tag text with up to 9/12 hex digits per side selects a request only if it denotes its id and serial without truncation.", _STEP_NOTE),
+    "C05": (_STEP_TEXT + ". Obligations: NO/AGAIN/MORE texts relayed verbatim to that client only; R exactly when a login-type service vouched an account (first stamp kept), +x when hiding was requested, class as assigned.", _STEP_NOTE),
+    "C06": (_STEP_TEXT + ". Obligations: the set of services queried in the step equals the reference set (configured, prerequisites now complete, not yet asked / re-asked on a well-formed password); CHECK/LOGIN/LOGIN2 carry this client's fields (ident else ~claimed name, within USERLEN); a malformed password is neither stored nor forwarded.", _STEP_NOTE),
+    "C07": (_STEP_TEXT + ". Obligations (frame): an event about one client leaves every other request record and xquery record byte-identical and emits no line naming them; `two`: two events in sequence (A then B) - nothing left in module statics by the first leaks into the second's lines.", _STEP_NOTE),
+    "C08": ("one input line through the real iauth_read (id parse, 16-slot tokenizer, lookup, dispatch, handler) from every inv() state: the line LAYOUT and command letter are enumerated by the driver (bare command, arguments, trailing argument, 17 arguments, unknown id, no id, two lines in one read), payload bytes symbolic; obligations: CBMC's memory-safety checks on the whole path, lines consumed, unknown id/command is a no-op, EOF requests a clean exit and changes nothing",
+            "trusted: evbuffer model hands out complete lines (chunk reassembly is libevent's); irc_pton/irc_ntop replaced by their contract (decided in C12/C13); invariant and recorder as in the step harness. Outside: arbitrary byte streams beyond the layouts, hangs inside libevent"),
+    "C09": ("formatting layer: for every format literal passed to iauth_send in the three modules (list extracted from /repo on every run) the real iauth_send renders exactly <word> [<id> <addr> <port>]<rest> in one fputs + one newline + one flush, byte for byte, with symbolic %s contents, symbolic address text and id/port chosen among boundary values; an over-long (1100-byte) argument is truncated to 1023 bytes memory-safely. stdout isolation of the logger at verbosity 0 is decided in C18 fanout.",
+            "trusted: byte-exact printf model (env/libc_models.c; native replay uses glibc); numbers restricted to boundary values (decimal rendering is libc's). Outside: that every record the decision layer produces is rendered through these literals (by construction of the recorder); announce echo by composition C12+C13"),
+    "C10": (_STEP_TEXT + ". Obligations: table size = live instances after every event, alloc/free counters balance, a finished request's timer is freed in the same step and a live one's is kept; `teardown`: EOF then the module destructors free every request, record, timer, the input event and buffer exactly once (CBMC --memory-leak-check).", _STEP_NOTE),
+    "C11": ("the real iauth_class_assign on a compiled vector of 1..3 rules with symbolic presence of every criterion, symbolic masks/prefix lengths, class present or not, trust_username; symbolic client (address, account with or without :stamp, ident, pre-assigned class, xquery masks). fnmatch is UNINTERPRETED (arbitrary consistent verdicts), so the result holds for every glob semantics. Obligations: deciding rule has all present criteria satisfied, every earlier rule definitely fails one, later rules are not evaluated, account glob sees the account without its stamp, class = value else name, U line exactly for trust_username with a ~ident",
+            "trusted: uninterpreted fnmatch model; compile order of rules follows from C19 (ordered set) and strcasecmp; typed allocation model. Outside: glibc fnmatch semantics, more than 3 rules"),
+    "C12": ("irc_ntop on every address: all 16 bytes symbolic. Text fits, NUL-terminated, never starts with ':', is accepted whole by irc_pton and by an RFC 4291 reference parser (glibc inet_pton is consulted in native replay) and denotes the same address (IPv4-compatible canonicalised to mapped); print(parse(print(a))) == print(a). quick: groups <= 0xf (all 256 zero patterns) plus two groups over their whole range; thorough: all 2^128 addresses.",
+            "trusted: the reference parser ref_inet6/ref_inet4 (cross-checked against glibc on every replay); printf model for the IPv4 branch"),
+    "C13": ("irc_check_mask on every (address, mask, length) incl. lengths > 128; irc_pton on every byte string of 1..5/9 bytes (memory safety, result within the string, agreement with the standard parsers where both accept); CIDR / wildcard layouts (driver) with symbolic digits: documented prefix length and network bits, then irc_check_mask(x, parsed) <=> x in the written network for a symbolic x",
+            "trusted: reference parsers; CBMC union imprecision worked around by reading parsed addresses through in6[] only. Outside: free-form strings longer than 5/9 bytes"),
+    "C14": ("`tok`: conf_parse_string/conf_parse_whitespace on every byte string of 1..4/7 bytes: terminates, memory-safe, cursor inside the text, quoted strings decode per the reference, errors are the documented kinds. `atomic`: for every truncation offset and structural byte flip of a valid file (driver), on top of a configuration whose values are SYMBOLIC: if conf_read reports an error every registered value, the present set and the node set are unchanged and no hook ran; the error tail is memory-safe",
+            "trusted: longjmp model that continues conf_read from the current source (env/jmp_model.h, gen_shim.py); fake file; CBMC-only shadow header for the enum bit-field. Outside: the entry parser on symbolic text (does not terminate symbolically, DESIGN A2.9)"),
+    "C15": ("`node`: one merge step of the real conf_replace_value on one live node of each kind, for every combination of registered / in file 1 / in file 2 (driver) and symbolic values (any character, may equal each other or the default): value = file else default, unregistered leftovers vanish, hook exactly when the effective value changes, ownership (CBMC double-free / deallocated checks). `merge`: object-level ordered merge scenarios (splice, revert, in place, registered after load) with symbolic values",
+            "trusted: scratch trees are materialised as the parser does (conf_parse_get_child); shadow header. Outside: more than two loads, larger universes"),
+    "C16": ("typed parsers on every string <= 5/8 bytes (boolean keywords, integer, interval/volume alphabets) and on grammar templates with symbolic digits and unit letters (value = sum of components mod 2^32); tokenizer decoding of quoted strings (shared with C14 tok)",
+            "trusted: strtoul model (glibc in replay). Outside: render/read-back through the entry parser on symbolic text (DESIGN A2.9); floats; (digits, components) beyond (1,3),(3,1)"),
+    "C17": ("start-up (first file merged by the real conf_replace_value, then the real module constructor) and reload (second file merged): afterwards the xquery service table / the compiled class rules equal the SECOND file, for every edit kind (add, remove, in place, swap, to/from empty; criterion added/dropped/changed) with symbolic protocol words, class values, patterns, boolean words and symbolic per-service reference counts",
+            "trusted: files are materialised as scratch trees (parser bypassed); shadow header. Outside: SIGUSR1 delivery; more than 2 services / rules"),
+    "C18": ("log_vmessage fan-out on an ARBITRARY routing table (3 facilities x 6 severities x any subset of 3 destinations, written into the real log_type objects) and a symbolic message (facility, severity): recorded exactly by the destinations of its facility and of `*`, once per mapping, attributed and complete; at verbosity 0 nothing reaches stdout (C09), at verbosity 1 exactly warnings and errors",
+            "trusted: recording back end. Outside (not decided): derivation of the table from the logs section (severity expressions, reload, destination life cycle) - harnesses exist but do not finish (DESIGN A2.11); file back end"),
+    "C19": ("comparator lemmas on the whole key domain (total order, consistency with equality); one operation (insert fresh/equal, remove with/without disposal, find, lower bound, clear with/without disposal) with symbolic keys and operand from EVERY binary-tree shape of <= 4/6 nodes (driver enumerates 23/197 shapes): results agree with the sorted-array model, post-state is a search tree whose in-order walk = threaded list = model, count right, cleanup exactly once on exactly the elements that left",
+            "trusted: the audit in C19_step.c; every shape is a pre-state and every post-state is shown to be a valid shape, so sequences of operations on sets of <= 4/6 elements are covered by induction"),
+}
+for _k, (_lt, _ln) in META.items():
+    if _k in RECIPES:
+        RECIPES[_k]["level_text"] = _lt
+        RECIPES[_k]["level_note"] = _ln
+        RECIPES[_k]["technique"] = _T
+NOT_APPLICABLE["C20"] = ("the property quantifies over the dependency GRAPH, which is the shape of the module table: with the dependency matrix symbolic, symbolic execution of "
+                         "module_load<->constructor<->module_depends does not finish (25 min, 3 modules); with the matrix enumerated nothing symbolic remains and the run would be a test, not a solver verdict (DESIGN A6)")
+RECIPES["C20"]["na_reason"] = NOT_APPLICABLE["C20"]
